@@ -36,4 +36,77 @@ PROPS = {
         "explanation": "run-length encoders (all enum members), row builders of task/component, state queries and "
                        "set_last_datetime against their specification, unbounded (loop invariants)",
     },
+
+    "C01": {
+        "inv": ["BaseWorkflow.__check_ready", "BaseWorkflow.__check_working", "BaseWorkflow.__check_finished",
+                "BaseTask.record_state"],
+        "static": COMMON_STATIC,
+        "level_text": "The three state-changing phases of a step are verified against two-state contracts for every workflow, "
+                      "every mix of FS/SS/FF/SF links and EVERY iteration order of the internal task sets (set loops are cut at "
+                      "invariants over an arbitrary enumeration): a task changes state only NONE->READY, READY->WORKING, "
+                      "WORKING->FINISHED and only through the gate the property states; the log display rule is verified.",
+        "level_note": "Function-level (modular) proof; the composition over BaseProject.simulate (phase order, log clause) is not yet "
+                      "discharged here. Trusted: pyvc, z3/cvc5, set/filter axioms, A6 arbitrary set order, well-formed references.",
+        "design_ref": "DESIGN.md section 6 C01",
+        "assumptions": ["preconditions: task/worker/facility references are not None; resources of a task are held exclusively (C03 a,b) when __check_finished runs",
+                        "not yet discharged: the step relation over BaseProject.simulate (phase order) and the derived log statement"],
+        "explanation": "two-state contracts of __check_ready/__check_working/__check_finished, arbitrary set order",
+    },
+    "C02": {
+        "inv": ["BaseWorker.has_workamount_skill", "BaseFacility.has_workamount_skill", "BaseWorker.has_facility_skill",
+                "BaseWorker.get_work_amount_skill_progress", "BaseFacility.get_work_amount_skill_progress",
+                "BaseTask.perform", "BaseWorkflow.perform", "BaseWorkflow.__check_finished",
+                "BaseTask.record_remaining_work_amount", "BaseComponent.update_error_value"],
+        "static": COMMON_STATIC,
+        "level_text": "perform() is verified for all allocations, skills and states: remaining work of a WORKING task drops by exactly "
+                      "the unit rate (automatic), the sum of present skilled workers' skills, or the sum of worker x facility products "
+                      "over pairs; any other task is untouched; an absent or unskilled resource contributes 0; __check_finished "
+                      "finishes only at remaining < tol and reports 0. Sums are prefix-sum functions proved by loop invariants.",
+        "level_note": "Deterministic skills (sd = 0) and exclusive holding (C03) are preconditions. Products of two symbolic reals and "
+                      "division by a symbolic count are uninterpreted (x/1 = x). Floats as reals. Step composition over simulate pending.",
+        "design_ref": "DESIGN.md section 6 C02",
+        "assumptions": ["np.random.normal(mean, 0) == mean", "BaseWorker.get_quality_skill_point: trusted contract (no effect on any property; feeds BaseComponent.error only)",
+                        "not yet discharged: initial remaining (BaseTask.initialize) and the per-step log relation over simulate"],
+        "explanation": "perform / skill progress / finish threshold",
+    },
+    "C07": {
+        "inv": ["BaseTeam.add_labor_cost", "BaseWorkplace.add_labor_cost", "BaseOrganization.add_labor_cost"],
+        "static": COMMON_STATIC,
+        "level_text": "The add_labor_cost chain is verified for all organizations, cost rates, states and flag combinations: every "
+                      "worker/facility gets exactly one entry (cost_per_time iff WORKING under only_working, 0 in zero mode), each "
+                      "team/workplace entry is the sum over its members, the organization's entry and return value is the sum over "
+                      "teams and workplaces (nested prefix sums, loop invariants, no bound).",
+        "level_note": "Requires distinct members and no resource in two teams/workplaces (WF.distinct). The link project.cost_list == "
+                      "organization.cost_list and the total-cost corollary need the simulate step composition (pending).",
+        "design_ref": "DESIGN.md section 6 C07",
+        "assumptions": ["not yet discharged: simulate appends the returned value to project.cost_list; zero mode exactly on absence steps"],
+        "explanation": "cost accounting chain",
+    },
+    "C08": {
+        "inv": ["BaseTask.record_state", "BaseTask.record_remaining_work_amount", "BaseTask.record_allocated_workers_facilities_id",
+                "BaseComponent.record_placed_workplace_id", "BaseComponent.record_state",
+                "BaseWorker.record_state", "BaseWorker.record_assigned_task_id", "BaseFacility.record_state",
+                "BaseFacility.record_assigned_task_id", "BaseWorkplace.record_placed_component_id",
+                "BaseWorkflow.record", "BaseProduct.record", "BaseTeam.record_assigned_task_id", "BaseTeam.record_all_worker_state",
+                "BaseWorkplace.record_assigned_task_id", "BaseWorkplace.record_all_facility_state", "BaseComponent.initialize"],
+        "static": COMMON_STATIC,
+        "level_text": "Every record_* method is proved to append exactly one entry equal to the live attribute (with the display rule), "
+                      "every aggregating record method to do so once for every member and nothing else (frames), for all models.",
+        "level_note": "The representation invariant `aligned` over sequences of simulate/backward_simulate/initialize/reverse calls is "
+                      "not yet composed; the log table static check is pending.",
+        "design_ref": "DESIGN.md section 6 C08",
+        "assumptions": ["not yet discharged: organization.record, initialize/reverse_log_information of all classes, aligned() over call sequences"],
+        "explanation": "record methods",
+    },
+    "C14": {
+        "inv": ["BaseComponent.check_state", "BaseComponent.initialize", "BaseProduct.check_state", "BaseComponent.record_state"],
+        "static": COMMON_STATIC,
+        "level_text": "check_state is proved against the exact value table of the three-stage update and against each clause of the "
+                      "property (FINISHED iff all tasks FINISHED, WORKING if any WORKING, never back to NONE, never out of FINISHED "
+                      "while tasks stay finished) for every task list incl. empty; product.check_state applies it to every component.",
+        "level_note": "Function-level; the body-order obligation over simulate (check_state after every task-state write, before record) pending.",
+        "design_ref": "DESIGN.md section 6 C14",
+        "assumptions": ["task references not None; distinct components in product.component_list"],
+        "explanation": "component state rule",
+    },
 }
